@@ -91,6 +91,8 @@ func cmdRun(args []string) int {
 	steps := fs.Int64("steps", 0, "max steps per path")
 	extra := fs.String("extra", "", "comma separated extra packages to load")
 	cpuprof := fs.String("cpuprofile", "", "write a CPU profile of the exploration here")
+	knownIDs := fs.String("known", "", "comma separated rt.KnownFinding ids to treat as open (their inputs are set aside)")
+	only := fs.String("only", "", "explore only the inputs of this rt.KnownFinding id")
 	fs.Parse(args)
 	if *cpuprof != "" {
 		f, err := os.Create(*cpuprof)
@@ -109,6 +111,16 @@ func cmdRun(args []string) int {
 	cfg.HangIsFinding = *hang
 	cfg.MaxViolations = *maxv
 	cfg.Twin = *twin
+	cfg.Known = map[string]bool{}
+	for _, k := range strings.Split(*knownIDs, ",") {
+		if k != "" {
+			cfg.Known[k] = true
+		}
+	}
+	if *only != "" {
+		cfg.Known[*only] = true
+		cfg.OnlyFinding = *only
+	}
 	if *steps > 0 {
 		cfg.MaxSteps = *steps
 	}
